@@ -33,7 +33,8 @@ BASE = dict(
     variants={}, faults={}, p_fault=0.0, reject=0.0, tight=0.35,
     treacherous=0.5, shapes=0.05, str_dtype=0.3, measures=SET_JOINS,
     threads=0.2, process=0.5, extras=0.5, outs=0.5, big=0.1,
-    wrong_mode_filters=0.0, siblings=0.08, retune=0.0, qgram_pref=0.2)
+    wrong_mode_filters=0.0, siblings=0.08, retune=0.0, qgram_pref=0.2,
+    fault_hist=0.12)
 
 
 def profile(prop):
@@ -626,11 +627,14 @@ def gen_plan(g):
     return plan
 
 
-def gen_fault(g, op):
+DEFAULT_FAULTS = {'tok_raise': 0.5, 'worker_crash': 0.3, 'sim_raise': 0.2}
+
+
+def gen_fault(g, op, force=False):
     rng, prof = g.rng, g.prof
-    if not prof['faults'] or rng.random() >= prof['p_fault']:
+    if not force and (not prof['faults'] or rng.random() >= prof['p_fault']):
         return None
-    kinds = list(prof['faults'].items())
+    kinds = list((prof['faults'] or DEFAULT_FAULTS).items())
     tot = sum(w for _, w in kinds)
     x = rng.random() * tot
     kind = kinds[-1][0]
@@ -1432,6 +1436,33 @@ def generate(prop, seed, run, overrides=None):
                     g.results_candsets = [
                         ((ci + 1) if ci >= idx else ci, a, b, c, d)
                         for (ci, a, b, c, d) in g.results_candsets]
+    # fault history: after the ordinary history, one of its calls is made again
+    # with a failure in the middle (tokenizer / similarity function raising, a
+    # worker dying) and then once more, valid and judged in full -- what a
+    # half-filled cache or a list that keeps the rows of the aborted call needs
+    if prof.get('fault_hist') and rng.random() < prof['fault_hist']:
+        import copy
+        cands = [o for o in case['history']
+                 if o['op'] in ('join', 'filter_tables', 'filter_candset',
+                                'filter_pair', 'apply_matcher')
+                 and 'fault' not in o]
+        if cands:
+            base = rng.choice(cands)
+            fa = copy.deepcopy(base)
+            for k2 in ('variants', 'twin'):
+                fa.pop(k2, None)
+            f = gen_fault(g, fa, force=True)
+            if f:
+                fa['fault'] = f
+                if f['kind'] == 'worker_crash' and fa.get('n_jobs') in (1,
+                                                                        None):
+                    fa['n_jobs'] = rng.choice([2, 3])
+                again = copy.deepcopy(base)
+                again.pop('variants', None)
+                if rng.random() < 0.5 and 'plan' in again:
+                    again['plan'] = gen_plan(g)
+                case['history'].append(fa)
+                case['history'].append(again)
     for _, fs in g.filters:
         fs.pop('_used', None)
     return case
